@@ -9,6 +9,7 @@ pub mod c09;
 pub mod c10;
 pub mod c11;
 pub mod c12;
+pub mod c13;
 pub mod c14;
 pub mod c16;
 pub mod c17;
@@ -34,6 +35,7 @@ pub fn get(id: &str, tier: Tier) -> Option<Property> {
         "C10" => c10::property(tier),
         "C11" => c11::property(tier),
         "C12" => c12::property(tier),
+        "C13" => c13::property(tier),
         "C14" => c14::property(tier),
         "C16" => c16::property(tier),
         "C17" => c17::property(tier),
